@@ -73,7 +73,7 @@ INSTANCES = [
      'bounds': '<= 2 L2 groups x <= 2 cpus, <= 2 L3 groups'},
     # family (c), decided: one instance per literal topology shape, CBMC in path-exploration mode (see topo.cpp / topo_rt.c)
     _topo('topo_22', (2, 2, 0), ['quick', 'thorough'], 600),
-    _topo('topo_111', (1, 1, 1), ['thorough'], 1500),
+    _topo('topo_111', (1, 1, 1), ['quick', 'thorough'], 1500),
     _topo('topo_222', (2, 2, 2), ['thorough'], 1700),
     _topo('topo_12', (1, 2, 0), ['thorough'], 600),
     _topo('topo_21', (2, 1, 0), ['thorough'], 600),
